@@ -279,6 +279,24 @@ def main(argv=None):
     if nobl == 0:
         print('UNDECIDED property=%s: zero obligations generated (vacuity guard)' % pid)
         return 2
+    # A failure is reported as a violation only when the proof that discharged the obligation on the unchanged tree still
+    # applied: all proof hints of the function were spliced where they belong.  Where the function's shape changed so that
+    # hints were lost or had to be dropped, the same failure may be a proof gap (a behaviour-preserving rewrite looks
+    # exactly like this), so it is UNDECIDED, never an alarm.
+    hint_loss = [f for f in violations if f.get('hints_dropped')]
+    violations = [f for f in violations if not f.get('hints_dropped')]
+    ev['violations'] = len(violations)
+    ev['coverage']['undecided_after_hint_loss'] = sorted(set(f['id'] for f in hint_loss))
+    json.dump(ev, open(os.path.join(EVDIR, pid + '.json'), 'w'), indent=1)
+    if hint_loss and not violations:
+        seen = set()
+        for f in hint_loss:
+            if f['id'] in seen:
+                continue
+            seen.add(f['id'])
+            print('UNDECIDED-OBLIGATION %s: %s -- the function changed shape, its proof hints no longer apply; not provable without them' % (f['id'], f['message']))
+        print('UNDECIDED property=%s: %d obligation(s) of rewritten function(s) could not be discharged without their proof hints (a proof gap or a defect: not decided)' % (pid, len(seen)))
+        return 2
     if violations:
         seen = set()
         for f in violations:
